@@ -107,6 +107,27 @@ def extendingSplice (dst : Bytes) (start stop : Nat) (payload : Bytes) (maxReser
     else some dst
   dst'.map (fun d => d.take start ++ payload ++ d.drop stop)
 
+/-! the same at the level of `Vec::splice`'s own preconditions (it panics when `start > end` or
+`end > len`); `Lemmas/SpliceLow.lean` proves it equal to `extendingSplice` for `start ≤ stop` -/
+
+/-- `dst.splice(start..stop, payload)` -/
+def spliceLow (dst : Bytes) (start stop : Nat) (payload : Bytes) : Res Bytes :=
+  if start > stop then .panic                 -- "slice index starts at … but ends at …"
+  else if stop > dst.length then .panic       -- "range end index … out of range"
+  else .ok (dst.take start ++ payload ++ dst.drop stop)
+
+/-- `extending_splice(dst, start..stop, payload, max_reserve)`; `none` = the `Err(String)` result -/
+def extendingSpliceLow (dst : Bytes) (start stop : Nat) (payload : Bytes) (maxReserve : Nat) :
+    Res (Option Bytes) :=
+  -- if let Some(extend_len) = end_index_plus_1.checked_sub(dst.len())
+  if stop ≥ dst.length then
+    let extendLen := stop - dst.length
+    if extendLen > maxReserve then .ok none
+    else
+      -- dst.extend(iter::repeat(T::default()).take(extend_len));
+      (spliceLow (dst ++ List.replicate extendLen 0) start stop payload).map some
+  else (spliceLow dst start stop payload).map some
+
 /-- `response.message.add_option_as(opt, block)` -/
 def addBlockOption (p : Packet) (num : Nat) (b : BlockValue) : HRes Packet :=
   match b.enc with
